@@ -147,6 +147,26 @@ def build_matrix():
                     tok = ("l" if form == "list" else "t") + ("T" if any(miss) else "F")
                     add(entry, ["range"], ["range"] if any(miss) else [], needs,
                         {"nd": 2, "bins": bp, "form": form, "missing": list(miss)}, flags=[True], shapes=[tok])
+    # degenerate DATA (all-zero, all-equal, a single record, two records, one class, data on the corners of the domain)
+    # for every entry with an omitted domain parameter: the warning must be recorded; a call that cannot work on such
+    # data must at least refuse it (HEAD: covariance_eig of an all-zero array warns, then raises LinAlgError)
+    plain = [(t, ["bounds"]) for t in BOUNDS_TOOLS] + [("histogram", ["range"]), ("GaussianNB", ["bounds"]),
+             ("KMeans", ["bounds"]), ("StandardScaler", ["bounds"]), ("LinearRegression", ["bounds_X", "bounds_y"]),
+             ("LogisticRegression", ["data_norm"]), ("RandomForestClassifier", ["bounds", "classes"]),
+             ("DecisionTreeClassifier", ["bounds", "classes"]), ("covariance_eig", ["norm"])]
+    for deg in ("zeros", "equal", "single", "two", "oneclass", "corners"):
+        for entry, params in plain:
+            for omit in subsets(params):
+                if omit:
+                    add(entry, params, omit, True, {"data": deg})
+        for omit in subsets(["bounds", "data_norm"]):
+            if omit:
+                add("PCA", ["bounds", "data_norm"], omit, True, {"data": deg, "centered": False}, flags=[False])
+        for v in ({"eigvals_only": True}, {"kw": {"dims": 1}}):
+            add("covariance_eig", ["norm"], ["norm"], True, dict(v, data=deg))
+        for entry in ("histogramdd", "histogram2d"):
+            add(entry, ["range"], ["range"], True, {"nd": 2, "bins": "scalar", "form": "none", "missing": [True, True],
+                                                    "data": deg}, flags=[True], shapes=["n"])
     # size-dependent paths: big grids / many cells
     for entry in ("histogramdd", "histogram2d"):
         add(entry, ["range"], ["range"], True, {"nd": 2, "bins": "bigscalar", "form": "none", "missing": [True, True]},
@@ -226,6 +246,19 @@ def _dataset(seed, c):
     X = rs.uniform(-1, 1, (n, nd)) / np.sqrt(nd)
     y = np.arange(n) % 3
     rs.shuffle(y)
+    deg = c["variant"].get("data")
+    if deg == "zeros":
+        X = np.zeros_like(X)
+    elif deg == "equal":
+        X = np.full_like(X, 0.25)
+    elif deg == "single":
+        X, y = X[:1], y[:1]
+    elif deg == "two":
+        X, y = X[:2], np.array([0, 1])
+    elif deg == "oneclass":
+        y = np.zeros_like(y)
+    elif deg == "corners":
+        X = np.sign(X) / np.sqrt(nd)
     return X, y
 
 
@@ -437,7 +470,7 @@ def worker_main():
     flt = [f[0] for f in warnings.filters if f[2] is PrivacyLeakWarning]
     out = {"filter_actions": flt, "results": []}
     for c in req["cells"]:
-        big = c["variant"].get("bins") == "bigscalar" or c["variant"].get("wide") or "32768" in str(c["variant"].get("bins_t"))
+        big = c["variant"].get("data") or c["variant"].get("bins") == "bigscalar" or c["variant"].get("wide") or "32768" in str(c["variant"].get("bins_t"))
         for seed in (req["seeds"][:1] if big else req["seeds"]):
             X, y = _dataset(seed + 7919 * c["id"], c)
             rec = {"id": c["id"], "seed": seed, "n": [None, None], "err": [None, None]}
@@ -524,6 +557,12 @@ def judge(ctx, c, rec, model_out):
         ctx.case(None)
         return
     data = {"cell": c, "seed": rec["seed"], "recorded_privacy_leak_warnings": rec["n"], "errors": rec["err"]}
+    if c["variant"].get("data") and any(e for e in rec["err"][:2]):
+        # degenerate data: a call that raises has released nothing — a refusal (with or without the warning before it)
+        ctx.case(key)
+        ctx.count("degenerate_refusals")
+        ctx.trace_ok()
+        return
     if any(e for e in rec["err"][:2]):
         # a call that raises is not a release; but the matrix is built from calls that are supposed to work
         ctx.disagree("matrix.call", {"cell": key, "seed": rec["seed"]}, "call returns", rec["err"],
